@@ -1,4 +1,5 @@
 """C04 neighbour search: argument contracts, radius boundary, pruning dependency."""
+import re
 from sa import e1, guards
 from sa.e1 import G, NE, EQ, BodyCtx
 from sa.match import Dim, Base, Arg, Field, Int, Zero, contains
@@ -247,3 +248,102 @@ def run(ck, prog):
     _run3(ck, prog)
     inverse_weights_guarded(ck, prog)
     ck.floor("E2-guarded-division", 1)
+
+
+def cover_radius_boundary(ck, prog):
+    """split / dist_split keep a point whose distance EQUALS the cover radius in the near set (a `<` would send it to
+    the far set, which build_cover_tree drops at the top level: the point would be lost to every query)"""
+    rule = "E1-gate"
+    for fn in ("split", "dist_split"):
+        inst = f"CoverTree::{fn} keeps points with d == cover radius in the near set"
+        b = prog.bodies.get(f"algorithm::neighbour::cover_tree::CoverTree::<T, F, D>::{fn}")
+        if not b:
+            ck.violation(rule, inst, fn, "", expected="anchor exists", found="anchor vanished")
+            continue
+        cx = BodyCtx.of(b)
+        is_radius = lambda t: t[0] == "call" and t[1].endswith("::get_cover_radius")
+        pushes = [(bb, cx.res.operand(t["args"][0])) for bb, t in b.calls() if t.get("f") and IS_PUSH(t["f"])]
+        found = 0
+        for c in cx.cmps:
+            for (L, R, lhs_subj) in ((c.lhs, c.rhs, True), (c.rhs, c.lhs, False)):
+                if is_radius(R) and not is_radius(L):
+                    found += 1
+                    rel = c.rel if lhs_subj else guards.FLIP[c.rel]
+                    # which pushes are reached on the d <= r side: exactly one destination vector per side
+                    near_edge = [(dst) for er, dst in ((rel, c.true_bb), (guards.NEG[rel], c.false_bb)) if "z" in guards.ATOMS[er]]
+                    far_edge = [(dst) for er, dst in ((rel, c.true_bb), (guards.NEG[rel], c.false_bb)) if "z" not in guards.ATOMS[er]]
+                    cls = {frozenset(guards.ATOMS[er]) for er in (rel, guards.NEG[rel])}
+                    if frozenset("nz") in cls and frozenset("p") in cls:
+                        ck.ok(rule, inst, b.path, c.where, f"`d {rel} cover radius`: near set iff d <= radius")
+                    else:
+                        ck.violation(rule, inst, b.path, c.where, expected="near set iff d < radius or d == radius",
+                                     found=f"partition classes {sorted(sorted(x) for x in cls)} of sign(d - radius)")
+        if found != 1:
+            ck.violation(rule, inst, b.path, f"{b.loc[0]}:{b.loc[1]}", expected="one comparison of a distance with the cover radius", found=f"{found}")
+
+
+def leaf_index_provenance(ck, prog):
+    """a leaf created for a point taken out of the point set carries THAT point's index ('each entry carrying the
+    true index'): new_leaf(x) inside a loop that removes `set` from point_set has x = set.idx"""
+    rule, inst = "E2-provenance", "batch_insert: leaves for duplicated points carry their own index"
+    b = prog.bodies.get("algorithm::neighbour::cover_tree::CoverTree::<T, F, D>::batch_insert")
+    if not b:
+        ck.violation(rule, inst, "batch_insert", "", expected="anchor exists", found="anchor vanished")
+        return
+    res = Resolver(b)
+    be = guards.back_edges(b)
+    removes = [bb for bb, t in b.calls() if t.get("f") and t["f"]["path"].endswith(("Vec::<T, A>::remove", "Vec::<T, A>::pop", "Vec::<T, A>::swap_remove"))]
+    n = 0
+    for bb, t in b.calls():
+        f = t.get("f")
+        if not (f and f["path"].endswith("::new_leaf")):
+            continue
+        arg = res.operand(t["args"][-1])
+        # is this call inside a loop iteration that removes an element (dominated by the removal within the iteration)?
+        doms = [rb for rb in removes if b.dominates(rb, bb) and any(b.dominates(h, rb) for (u, h) in be)]
+        if not doms:
+            continue
+        n += 1
+        own = arg[0] == "field" and arg[2] == "idx" and any(s[0] == "call" and s[1].endswith(("::remove", "::pop", "::swap_remove")) for s in subterms(arg))
+        if own:
+            ck.ok(rule, inst, b.path, b.where(bb), f"new_leaf({render(arg)[:60]})")
+        else:
+            ck.violation(rule, inst, b.path, b.where(bb), ordinal=n, expected="new_leaf(<removed element>.idx)",
+                         found=f"new_leaf(`{render(arg)[:80]}`): the duplicate is registered under another point's index")
+    if n < 1:
+        ck.violation(rule, inst, b.path, f"{b.loc[0]}:{b.loc[1]}", expected="a leaf per drained duplicate", found="no such site recognised")
+
+
+def sort_before_truncation(ck, prog):
+    """find: candidates are ordered before they are cut down to k (cutting first lets a tied far point displace a nearer one)"""
+    rule, inst = "E2-order", "CoverTree::find sorts the candidates before truncating to k"
+    b = prog.bodies.get("algorithm::neighbour::cover_tree::CoverTree::<T, F, D>::find")
+    if not b:
+        ck.violation(rule, inst, "find", "", expected="anchor exists", found="anchor vanished")
+        return
+    res = Resolver(b)
+    be = guards.back_edges(b)
+    sorts = [bb for bb, t in b.calls() if t.get("f") and re.search(r"::sort(_unstable)?(_by(_key)?)?$", t["f"]["path"])]
+    cuts = [bb for bb, t in b.calls() if t.get("f") and t["f"]["path"].endswith(("Iterator::take", "Vec::<T, A>::truncate"))
+            and any(a[0] == "arg" and a[1] == 3 for a in [res.operand(x) for x in t["args"][1:]])]
+    if not cuts:
+        ck.violation(rule, inst, b.path, f"{b.loc[0]}:{b.loc[1]}", expected="a truncation to k", found="none recognised")
+        return
+    bad = [cb for cb in cuts for sb_ in sorts if sb_ in b.reachable_from([cb], cut_edges=be) and sb_ != cb]
+    if bad:
+        ck.violation(rule, inst, b.path, b.where(bad[0]), expected="no sort after the truncation", found="the candidate list is cut to k before it is sorted")
+    else:
+        ck.ok(rule, inst, b.path, b.where(cuts[0]), f"{len(sorts)} sort site(s), none after the truncation")
+
+
+_run4 = run
+
+
+def run(ck, prog):
+    _run4(ck, prog)
+    cover_radius_boundary(ck, prog)
+    leaf_index_provenance(ck, prog)
+    sort_before_truncation(ck, prog)
+    ck.floor("E1-gate", 4)
+    ck.floor("E2-provenance", 1)
+    ck.floor("E2-order", 1)
